@@ -63,6 +63,12 @@ CLAIMS["C16"] = dict(
     note="Proved: the collector. Oracle only: registration at every emission site (imports_cover's premise) and prepending to the module (gen_arguments). The key order of from-imports (BTreeMap order) is checked by the correspondence, not proved.",
     technique="Lean 4 proof (invariant over call sequences) + correspondence on the real collector + free-name oracle",
     design="§5 C16")
+CLAIMS["C06"] = dict(
+    text="Unbounded Lean theorems on the models of TrueName::is_superset_of and Name::union over an arbitrary variant relation (every class table, every depth): a non-nullable T never accepts a nullable type, accepts None only if its class does, T? accepts None and accepts T/T? whenever the variants relate, and a union with None has only nullable non-None members. "
+         "The model is the one tied by C20's exhaustive correspondence. The flow positions are decided by a verdict oracle over type (Int, Str, Bool, Float, user class) x position (initialiser, reassignment, function/constructor/method argument, return, field, operand, receiver, ? default) x context (top level, function, branch, else, loop, method), in both directions.",
+    note="Proved: name layer. Oracle only: that each consuming position generates the constraint (constraint generation and the unifier are not modelled).",
+    technique="Lean 4 proof over name-lattice model + exhaustive verdict matrix oracle",
+    design="§5 C06")
 NOT_YET = {}
 ALL = ["C%02d" % i for i in range(1, 21)]
 
